@@ -22,7 +22,7 @@ from mc.bind import HarnessError, seam
 ID = 'C20'
 RULE = ('every injection point discovered by an instrumented fault-free run (molecule write k of n, header rewrite, sort, index, '
         'pool job j, merge, temp-folder cleanup, input verification, failing arguments; before/after and, for sort and merge, inside = half-written output) x fault kind '
-        '{exception, kill} x {single, --multiprocess} x {nla, chic} x {fresh output path, re-run over the finished output of an earlier run}; thorough adds every pair of consecutive points for exceptions; '
+        '{exception, kill, interrupt} x {single, --multiprocess} x {nla, chic} x {fresh output path, re-run over the finished output of an earlier run}; thorough adds every pair of consecutive points for exceptions; '
         'non-trivial = fault injected after at least one molecule was written; states = executions in forked children')
 ASSUMPTIONS = [
     'kills land at Python-level step boundaries (and one modelled mid-sort / mid-merge point), not inside htslib',
@@ -34,7 +34,7 @@ BGZF_EOF = bytes.fromhex('1f8b08040000000000ff0600424302001b00030000000000000000
 
 
 def bounds(tier):
-    return {'modes': ['single', 'multi'], 'methods': ['nla', 'chic'], 'kinds': ['exception', 'kill'],
+    return {'modes': ['single', 'multi'], 'methods': ['nla', 'chic'], 'kinds': ['exception', 'kill', 'interrupt (KeyboardInterrupt)'],
             'deviation_bound': 1 if tier == 'quick' else 2, 'input': '10 fragments / 8 molecules on a small and a large contig + unmapped pair'}
 
 
@@ -77,6 +77,8 @@ class Injector:
                         pass
                 if kind == 'kill':
                     os._exit(137)
+                if kind == 'interrupt':
+                    raise KeyboardInterrupt()     # what a SIGINT (ctrl-c, scheduler soft kill) does to the process
                 raise _Injected(f'injected at {site}#{occ}:{when}')
 
     def wrap(self, site, fn, inside_cb_factory=None):
@@ -154,12 +156,12 @@ def child_main(inp_path, out_path, tmpdir, mode, method, plan, log_path, extra_a
         if mode == 'multi':
             argv.append('--multiprocess')
         argv += list(extra_argv)
-        exc, sch = tagger.run_tagger(argv)
+        exc, sch = tagger.run_tagger(argv, catch_interrupt=True)
         if log_path:
             with open(log_path, 'w') as f:
                 for s, o in log:
                     f.write(f'{s}\t{o}\n')
-        code = 0 if exc is None else 3
+        code = 0 if exc is None else (130 if isinstance(exc, KeyboardInterrupt) else 3)
     except BaseException:
         code = 4
     finally:
@@ -225,7 +227,8 @@ def judge(mode, method, plan, code, text, out, inrecs, prior=False):
     where = '+'.join(f'{s}:{w}' for s, o, w, k in plan) or 'no-fault'
     kinds = '+'.join(sorted({k for s, o, w, k in plan})) or 'none'
     if says_success and code != 0:
-        viol.append((f'{tag}:success-status-although-run-{"was-killed" if code == 137 else "failed"}:{where}', {'exit': code, 'status': text}))
+        how = {137: 'was-killed', 130: 'was-interrupted'}.get(code, 'failed')
+        viol.append((f'{tag}:success-status-although-run-{how}:{where}', {'exit': code, 'status': text}))
     if says_success:
         problem = output_problem(out, inrecs)
         if problem:
@@ -280,7 +283,7 @@ def shards(tier):
     out = []
     for mode in ('single', 'multi'):
         for method in ('nla', 'chic'):
-            for kind in ('exception', 'kill'):
+            for kind in ('exception', 'kill', 'interrupt'):
                 for part in range(4):
                     out.append((mode, method, kind, part, 4, False))
                 for part in range(4):
